@@ -332,7 +332,7 @@ def r4_restart(L, repo):
 
 def run(L, tier):
     repo = Repo(L.repo)
-    r1_counter(L, repo)
-    r2_indication(L, repo)
-    r3_deadline(L, repo)
-    r4_restart(L, repo)
+    L.stage(r1_counter, L, repo)
+    L.stage(r2_indication, L, repo)
+    L.stage(r3_deadline, L, repo)
+    L.stage(r4_restart, L, repo)
